@@ -27,7 +27,7 @@ ASSUMPTIONS = [
 ]
 PROBES = ["decodable_not_dispatched", "inject.truncated", "inject.empty", "inject.random", "inject.flip", "inject.fid_subst", "inject.seq_subst", "inject.unknown_id", "inject.repeated", "inject.stale_own_reply", "mode.renegotiate",
           "undecodable_ignored", "decodable_dispatched", "pending_seq_foreign_fid", "pending_seq_own_fid", "pending_call_timed_out_after_bad_frame",
-          "after_command_ok", "pending.version", "mode.idle", "mode.pending", "mode.wrap", "wrapped_onto_stale_sequence"]
+          "after_command_ok", "loggers_at_debug", "inject.frame_control", "pending.version", "mode.idle", "mode.pending", "mode.wrap", "wrapped_onto_stale_sequence"]
 
 VERSIONS = list(range(4, 15))
 BASE = ["stackStatusHandler", "incomingMessageHandler", "messageSentHandler", "trustCenterJoinHandler", "childJoinHandler",
@@ -49,6 +49,11 @@ def plan(tier):
         sweeps.append(("renegotiate", {"V": V, "sched": False}))
         for stale in ("undecodable", "timeout", "cancel"):
             sweeps.append(("wrap", {"V": V, "stale": stale, "sched": False}))
+        if V in (4, 5, 8, 14):
+            # every value of the frame-control byte of three valid frames - with bellows' loggers at DEBUG (as users run it when they look for
+            # a problem) and at their normal level: what is logged never decides whether the receive entry point raises
+            for dbg in (True, False):
+                sweeps.append(("fcbytes", {"V": V, "debuglog": dbg, "sched": False}))
     return {
         "sweeps": sweeps,
         "exhaustive": "versions 4..14 x {no command pending, under a pending command's sequence} x every truncation (length 0..len-1, and the intact frame) of the base frame set present in that version",
@@ -378,6 +383,17 @@ def run(scenario, params, tape, detail=False):
             else:
                 probe("after_command_ok")
             return
+        if scenario == "fcbytes":
+            probe("mode.idle")
+            for name in ("stackStatusHandler", "getValue", "nop"):
+                full = sample_frame(ncp, V, name, tape, 0xE7)
+                for x in range(256):
+                    data = full[:1] + bytes([x]) + full[2:]
+                    injected.append(data)
+                    probe("inject.frame_control")
+                    await inject_idle(data, f"{name} with frame-control byte {x:#04x}")
+                await after_check(f"{name} frame-control sweep", full)
+            return
         if scenario == "trunc":
             mode = params["mode"]
             probe("mode." + mode)
@@ -490,7 +506,26 @@ def run(scenario, params, tape, detail=False):
                 if tape.draw(3, "after") == 0:
                     await after_check(kind, data)
 
-    outcome, val = rig.run(main())
+    import logging
+
+    debuglog = params.get("debuglog", False) or (scenario == "random" and tape.draw(4, "debuglog") == 3)
+    if debuglog:
+        probe("loggers_at_debug")
+        lg = logging.getLogger("bellows")
+        nh = logging.NullHandler()
+        old_level, old_prop = lg.level, lg.propagate
+        logging.disable(logging.NOTSET)
+        lg.setLevel(logging.DEBUG)
+        lg.addHandler(nh)
+        lg.propagate = False
+    try:
+        outcome, val = rig.run(main())
+    finally:
+        if debuglog:
+            lg.removeHandler(nh)
+            lg.setLevel(old_level)
+            lg.propagate = old_prop
+            logging.disable(logging.CRITICAL)
     if outcome != "done":
         viol.append(("C08.after", "sim-" + outcome, f"v{V}: simulation ended with {outcome}: {val!r}"))
     if rig.transport is not None and rig.transport.raised:
